@@ -21,7 +21,7 @@ RULE = ('Generated valid documents (1..4 paragraphs, fields with 0..2 own commen
         'spaces, trailing blanks, 0..3 continuation lines with space/tab/multi-space markers and interleaved comment lines, '
         'separators "\\n", "\\n\\n", " \\n", free comment blocks, leading/trailing blocks, with/without final newline) x '
         'histories of 1..6 set/add/delete operations with single- and multi-line new values and keys in original/upper/'
-        'lower case.  Non-trivial: document has >= 2 paragraphs or comments or multi-line values, and >= 1 mutating op.')
+        'lower case; about 1% of the documents are BIG (8..30 paragraphs of 10..40 fields).  Non-trivial: document has >= 2 paragraphs or comments or multi-line values, and >= 1 mutating op.')
 ASSUMPTIONS = ['only the position, line-wholeness and name of the rewritten field text are constrained, never its exact formatting',
                'deleting a field may or may not take the field\'s own comment lines with it (the statement leaves that open); both accepted',
                'a paragraph is emptied only transiently: deleting its only field is always followed at once by adding a field to it (the dump is still compared byte-for-byte in between; the fresh-parse comparison resumes after the refill)',
@@ -36,9 +36,9 @@ ANCHORS = ['debian._deb822_repro.parsing:Deb822ParagraphToStrWrapperMixin.__seti
            'debian._deb822_repro.parsing:Deb822ValueLineElement.add_newline_if_missing']
 MUST_REACH = ANCHORS[:6]
 FLOORS = {'quick': {'nontrivial': 1500, 'monitors': {'M.step': 8000, 'M.reparse': 8000, 'K4': 5000, 'K5': 5000},
-                    'counters': {'op:set': 1500, 'op:add': 1000, 'op:del': 500, 'op:del-to-empty': 60, 'add-after-missing-final-newline': 30}},
+                    'counters': {'op:set': 1500, 'op:add': 1000, 'op:del': 500, 'op:del-to-empty': 60, 'add-after-missing-final-newline': 30, 'big-document': 12}},
           'thorough': {'nontrivial': 100000, 'monitors': {'M.step': 500000, 'M.reparse': 500000, 'K4': 300000, 'K5': 300000},
-                       'counters': {'op:set': 100000, 'op:add': 60000, 'op:del': 35000, 'op:del-to-empty': 4000, 'add-after-missing-final-newline': 2000}}}
+                       'counters': {'op:set': 100000, 'op:add': 60000, 'op:del': 35000, 'op:del-to-empty': 4000, 'add-after-missing-final-newline': 2000, 'big-document': 1500}}}
 LEVEL_TEXT = ('Runtime monitoring: seeded edit histories on live format-preserving documents; after every operation the dump is '
               'compared byte-for-byte with the layout model outside the edited field, the edited region is checked for '
               'line-wholeness/name/comment hand-over, and a fresh parse plus the live dict view are compared with a list model; '
@@ -103,9 +103,10 @@ def readback(v):
 def cases(ctx):
     r = ctx.rng('docs')
     for _ in range(ctx.size(3000, 450000)):
-        doc = rtdoc.gen_doc(r)
+        big = r.random() < .012
+        doc = rtdoc.gen_doc(r, big=big)
         ids = rtdoc.Ids()
-        ids.n = 1000
+        ids.n = 100000 if big else 1000
         ops = []
         # shadow name lists so that generated ops are mostly applicable
         names = [[f['name'] for f in p] for p in doc['paras']]
@@ -168,6 +169,8 @@ def run_case(ctx, case):
     except Exception:
         pass
     doc = case['doc']
+    if sum(len(p) for p in doc['paras']) >= 80:
+        ctx.count('big-document')
     # deep-ish copy of the model (the case itself must stay untouched for replay files)
     model = {'lead': doc['lead'], 'seps': list(doc['seps']), 'trail': doc['trail'], 'final_newline': doc['final_newline'],
              'paras': [[dict(f) for f in p] for p in doc['paras']]}
